@@ -39,11 +39,15 @@ func c15Content(f, cid int, valid, layoutScenario bool) string {
 		if layoutScenario {
 			fm += "layout: lay\n"
 		}
-		return fm + "---\n" + fmt.Sprintf("<p>P%d v={{ v }}</p><template include=\"comp.vuego\"></template>", cid)
+		body := fmt.Sprintf("<p>P%d v={{ v }}</p><template include=\"comp.vuego\"></template>", cid)
+		if layoutScenario { // a named slot handed to the layout: its nodes must not be shared with the cache
+			body += fmt.Sprintf("<template #side><em>S%d</em></template>", cid)
+		}
+		return fm + "---\n" + body
 	case 1:
 		return fmt.Sprintf("<i>C%d</i>", cid)
 	default:
-		return fmt.Sprintf("<main><b>L%d</b><div v-html=\"content\"></div></main>", cid)
+		return fmt.Sprintf("<main><b>L%d</b><aside><slot name=\"side\"></slot><hr></aside><div v-html=\"content\"></div></main>", cid)
 	}
 }
 
